@@ -116,6 +116,10 @@ def sites_of(f):
                 if tag in ("index", "index_mut") and len(tys) > 1:
                     d += " by " + tys[1]
                 yield bi, t, "call", d
+            elif n in ("std::ops::Add::add", "std::ops::Sub::sub", "std::ops::AddAssign::add_assign", "std::ops::SubAssign::sub_assign") \
+                    and "chrono::" in ((t.get("arg_tys") or [""])[0]):
+                # chrono's operators panic on overflow (documented): a panic-capable construct like any other
+                yield bi, t, "call", "chrono %s on %s" % (n.split("::")[-1], clean_ty((t.get("arg_tys") or ["?"])[0]))
             elif n.startswith("core::panicking::") or n.startswith("std::rt::begin_panic") or n.startswith("std::panicking::"):
                 m = (t.get("exp") or "").split(">")
                 mac = [x for x in m if x.startswith("m:")]
@@ -249,6 +253,91 @@ def _counter_info(body, op):
     return {"local": x, "inits": inits, "steps": steps}
 
 
+def _resolve_place(body, place, depth=0):
+    """(base local, projection path without derefs) of a place, looking through references to locals:
+    (*_p).f with _p = &mut x  ->  (x, (f,))."""
+    l, proj = place["l"], list(place["p"])
+    for _ in range(8):
+        if not proj or proj[0] != "*":
+            break
+        # definitions of the reference itself (writes *through* it are not definitions of it)
+        ds = [x for x in body.defs.get(l, []) if x.kind != "assign" or not x.node["dst"]["p"]]
+        d = ds[0] if len(ds) == 1 else None
+        if d is None or d.kind != "assign":
+            return None
+        rv = d.node["rv"]
+        if rv["k"] == "ref":
+            l, proj = rv["place"]["l"], list(rv["place"]["p"]) + proj[1:]
+        elif rv["k"] == "use" and op_place(rv["op"]) is not None:
+            q = op_place(rv["op"])
+            l, proj = q["l"], list(q["p"]) + proj
+        else:
+            return None
+    if "*" in proj:
+        return None
+    return l, tuple(e["f"] if isinstance(e, dict) and "f" in e else str(e) for e in proj)
+
+
+def _place_counter(body, place):
+    """A counter kept in a field or behind a reference (`self.consumed += 1`, `*len += 1`): every write to that storage in
+    the body is a constant initialisation (possibly as a field of an aggregate) or `itself + small constant`."""
+    tgt = _resolve_place(body, place)
+    if tgt is None or (1 <= tgt[0] <= body.argc):
+        return None
+    base, path = tgt
+    inits, steps = 0, 0
+    for i in sorted(body.reach):
+        for st in body.blocks[i]["stmts"]:
+            if st["k"] != "assign":
+                continue
+            r = _resolve_place(body, st["dst"])
+            if r is None:
+                if st["dst"]["l"] == base:
+                    return None
+                continue
+            if r[0] != base:
+                continue
+            rv = st["rv"]
+            if r[1] == path:
+                if rv["k"] == "use" and op_const(rv["op"]) is not None:
+                    inits += 1
+                elif rv["k"] == "use" and op_place(rv["op"]) is not None and proj_path(op_place(rv["op"])) == (("f", "0"),):
+                    dt = body.single_def(op_place(rv["op"])["l"])
+                    ok = False
+                    if dt and dt.kind == "assign" and dt.node["rv"]["k"] == "binop" and dt.node["rv"]["op"].startswith("Add"):
+                        a = op_place(dt.node["rv"]["a"])
+                        c = const_int(body, dt.node["rv"]["b"])
+                        src = None
+                        if a is not None:
+                            da = body.single_def(a["l"]) if not a["p"] else None
+                            src = _resolve_place(body, op_place(da.node["rv"]["op"])) if (da and da.kind == "assign" and da.node["rv"]["k"] == "use" and op_place(da.node["rv"]["op"])) else _resolve_place(body, a)
+                        ok = src == (base, path) and c is not None and 0 <= c <= 8
+                    if not ok:
+                        return None
+                    steps += 1
+                elif rv["k"] == "binop" and rv["op"].startswith("Add") and const_int(body, rv["b"]) is not None and 0 <= const_int(body, rv["b"]) <= 8:
+                    steps += 1
+                else:
+                    return None
+            elif len(r[1]) < len(path) and path[:len(r[1])] == r[1]:
+                # the enclosing aggregate is (re)built: the field must get a constant
+                for _ in range(6):      # the aggregate may arrive through moves (e.g. the return value of an inlined constructor)
+                    q = op_place(rv["op"]) if rv["k"] == "use" else None
+                    dq = body.single_def(q["l"]) if (q is not None and not q["p"]) else None
+                    if dq is not None and dq.kind == "assign":
+                        rv = dq.node["rv"]
+                    else:
+                        break
+                if rv["k"] == "agg" and rv.get("agg") == "adt" and path[len(r[1])] in rv["fields"]:
+                    o = rv["ops"][rv["fields"].index(path[len(r[1])])]
+                    if op_const(o) is None or len(path) != len(r[1]) + 1:
+                        return None
+                    inits += 1
+                else:
+                    return None
+    return (inits, steps) if inits >= 1 and steps >= 1 else None
+
+
 def _nonzero_test_edges(body, x):
     """Edges on which local x is known to be != 0 (x unsigned)."""
     out = set()
@@ -353,6 +442,13 @@ def contract(fx, body, bb, t, kind, descr):
             if kl and all(l.kind == "param" and l.path == (("elem",),) and "BTreeSet<models::helpers::VirtualTargetPath>" in body.local_ty(l.data) for l in kl):
                 return ("G8-premise", "artifact map indexed by an element of the artifact queue: queue elements are canonicalised keys of the same "
                         "link's artifact map, and the map is re-keyed by the same canonicalisation (single call site in the rule engine)")
+    if kind == "call" and descr.startswith("chrono ") and len(t["args"]) == 2:
+        la, lb = body.trace(t["args"][0]), body.trace(t["args"][1])
+        now = la and all(l.kind == "call" and callee_name(l.data[1]) in ("chrono::Utc::now", "chrono::Local::now") for l in la)
+        dur = lb and all(l.kind == "call" and (callee_name(l.data[1]) or "").startswith(("chrono::Duration::", "chrono::TimeDelta::")) and
+                         all(const_int(body, a) is not None for a in l.data[1]["args"]) for l in lb)
+        if now and dur:
+            return ("G7-chrono", "current time plus / minus a constant duration: chrono overflows only near year +-262143")
     if kind == "call" and n == "std::result::Result::unwrap":
         lv = body.trace(t["args"][0], (), lambda tt: callee_name(tt) == "path_clean::clean",
                         {"std::ffi::OsString::into_string": [((), 0, ())], "std::path::PathBuf::into_os_string": [((), 0, ())]})
@@ -362,6 +458,52 @@ def contract(fx, body, bb, t, kind, descr):
             return ("G7-utf8", "PathBuf produced by path_clean::clean from a str/String: its components are substrings of UTF-8 input, "
                     "so OsString::into_string cannot fail")
     return None
+
+
+def discharge_in_region(fx, cg, k, bb, t, kind, descr):
+    """The guard may live in a caller (a private helper is only ever run under its callers' checks) or the guarded value may
+    come out of a private helper: judge the construct in the REGION (private helpers inlined) of the function it is written in
+    and of every non-private function through which it is reached - all instances must be discharged."""
+    from ..cg import region_of_key, private_only_policy, vis_kind
+    rootk = fx.root_of(fx.fns[k])["key"]
+    tops, seen, stack = set(), set(), [rootk]
+    while stack:
+        x = stack.pop()
+        if x in seen:
+            continue
+        seen.add(x)
+        fxn = fx.fns[x]
+        if fxn["kind"] in ("Fn", "AssocFn") and vis_kind(fxn) == "private" and not fxn.get("impl_trait"):
+            callers = {fx.root_of(fx.fns[ck])["key"] for ck in fx.fns for (cbb, ct, tgt) in cg.sites.get(ck, ()) if tgt == x}
+            callers.discard(x)
+            if not callers:
+                return None
+            stack.extend(callers)
+        else:
+            tops.add(x)
+    if not tops or len(tops) > 6:
+        return None
+    reasons = []
+    for top in sorted(tops):
+        rb = _REGIONS.get((id(fx), top))
+        if rb is None:
+            rb = _REGIONS[(id(fx), top)] = region_of_key(fx, top, 4, private_only_policy(fx))
+            rb.enable_path_sensitivity()
+        inst = [i for i in sorted(rb.reach) if rb.blocks[i].get("origin_key") == k and rb.blocks[i].get("origin_bb") == bb and not rb.blocks[i].get("synthetic")
+                and rb.blocks[i]["term"] and rb.blocks[i]["term"].get("at") == t.get("at")]
+        if not inst:
+            if top == rootk:
+                return None
+            continue          # not reached from this top within the inlining depth: nothing to show there
+        for i in inst:
+            r = _discharge(fx, rb, i, rb.blocks[i]["term"], kind, descr, cg, top) or contract(fx, rb, i, rb.blocks[i]["term"], kind, descr)
+            if r is None:
+                return None
+            reasons.append(r)
+    if not reasons:
+        return None
+    return (reasons[0][0] + "-region", reasons[0][1] + " (judged in the region of %s, private helpers inlined)" % ", ".join(
+        clean_path(fx.fns[x]["path"]) for x in sorted(tops)))
 
 
 def discharge(fx, body, bb, t, kind, descr, cg=None, fkey=None):
@@ -520,6 +662,21 @@ def _discharge(fx, body, bb, t, kind, descr, cg=None, fkey=None):
                     and all(s[1].startswith("Add") and s[2] is not None and 0 <= s[2] <= 8 for s in ci["steps"]) \
                     and all(_const_bounded(body, i[1]) for i in ci["inits"]):
                 return ("G6", "64-bit counter initialised from a constant and only ever incremented by a small constant")
+            pa = op_place(a)
+            if pa is not None and pa["p"]:
+                last = [e for e in pa["p"] if isinstance(e, dict) and "ty" in e]
+                aty_place = last[-1]["ty"] if last and isinstance(pa["p"][-1], dict) else ""
+                if pa["p"] == ["*"]:
+                    aty_place = re.sub(r"^&(mut )?", "", body.local_ty(pa["l"]))
+            else:
+                aty_place = aty
+            if op == "Add" and cb is not None and 0 <= cb <= 8 and aty_place in ("usize", "u64") and pa is not None:
+                # the counter lives in a field / behind a reference: resolve the storage it is read from
+                da = body.single_def(op_place(a)["l"]) if not op_place(a)["p"] else None
+                src = op_place(da.node["rv"]["op"]) if (da and da.kind == "assign" and da.node["rv"]["k"] == "use" and op_place(da.node["rv"]["op"])) else op_place(a)
+                pc = _place_counter(body, src) if src is not None and src["p"] else None
+                if pc:
+                    return ("G6", "64-bit counter kept in a field / behind a reference: %d constant initialisation(s), %d step(s) by a small constant, no other write" % pc)
             if op == "Sub" and cb == 1:
                 # len - 1 under a non-empty guard
                 lx = _is_len_of(body, a)
@@ -609,8 +766,23 @@ def structural_recursion(fx, comp):
     JSON tree, which serde_json limits to 128 levels for parsed input."""
     roots = {fx.root_of(fx.fns[x])["key"] for x in comp}
     if len(roots) != 1:
-        return None
-    k = next(iter(roots))          # one function, possibly together with closures of its own
+        # mutual recursion among module-private functions: judged from the one member that is entered from outside the cycle,
+        # with the others inlined into it
+        from ..cg import vis_kind, CallGraph
+        outside = set()
+        for r in roots:
+            for ck in fx.fns:
+                if fx.root_of(fx.fns[ck])["key"] in roots:
+                    continue
+                for blk in fx.fns[ck]["blocks"]:
+                    t = blk["term"]
+                    if t and t["k"] == "call" and (t.get("resolved_key") or t.get("callee_key")) == r:
+                        outside.add(r)
+        if len(outside) != 1 or not all(vis_kind(fx.fns[r]) == "private" for r in roots - outside):
+            return None
+        k = next(iter(outside))
+    else:
+        k = next(iter(roots))          # one function, possibly together with closures of its own
     f = fx.fns[k]
     if len(comp) == 1:
         b = body_of(fx, k)
@@ -652,7 +824,7 @@ def recursion_entry(fx, comp):
         mods = {p.rsplit("::", 1)[0] for p in key}
         extra = [k for k in comp if clean_path(fx.fns[k]["path"]) not in key]
         if all((fx.fns[k]["kind"] == "Closure" or vis_kind(fx.fns[k]) == "private") and
-               clean_path(fx.root_of(fx.fns[k])["path"]).rsplit("::", 1)[0] in mods for k in extra):
+               any(clean_path(fx.root_of(fx.fns[k])["path"]).startswith(m + "::") for m in mods) for k in extra):
             return key
     return None
 
@@ -661,9 +833,70 @@ LOOPS = {
 }
 
 
+CLIPPY_LINTS = ["unwrap_used", "expect_used", "indexing_slicing", "string_slice", "panic", "arithmetic_side_effects", "unreachable",
+                "unimplemented", "todo"]
+
+
+def clippy_crosscheck(ctx):
+    """Thorough tier: a one-directional consistency check of the extractor (not a verdict about the repository). Every site that
+    clippy's restriction lints for panics / unchecked arithmetic / indexing report in the library must lie inside the source span
+    of a construct of the C14 inventory (taken over ALL functions, in scope or not)."""
+    import json, os, subprocess
+    from ..engine import CACHE, nightly_sysroot
+    fx = ctx.fx
+    repo = ctx.info["repo"]
+    spans = {}
+    n_inv = 0
+    for f in fx.doc["fns"]:
+        for (bb, t, kind, descr) in sites_of(f):
+            m = re.match(r"^(.*?):(\d+):\d+-(\d+):\d+$", t.get("at") or "")
+            if m:
+                n_inv += 1
+                spans.setdefault(m.group(1), []).append((int(m.group(2)), int(m.group(3)), descr))
+    env = dict(os.environ)
+    env.update({"CARGO_NET_OFFLINE": "true", "CARGO_TARGET_DIR": os.path.join(CACHE, "clippy-target")})
+    cmd = ["cargo", "+nightly", "clippy", "--offline", "--lib", "--message-format=json", "--", "-A", "clippy::all"]
+    for l in CLIPPY_LINTS:
+        cmd += ["-W", "clippy::" + l]
+    # clippy replays nothing when the crate is fresh: touch nothing in the repo, remove our own fingerprint instead
+    fp = os.path.join(CACHE, "clippy-target", "debug", ".fingerprint")
+    if os.path.isdir(fp):
+        for d in os.listdir(fp):
+            if d.startswith("in-toto-"):
+                subprocess.run(["rm", "-rf", os.path.join(fp, d)])
+    r = subprocess.run(cmd, cwd=repo, env=env, stdout=subprocess.PIPE, stderr=subprocess.PIPE, text=True)
+    sites = []
+    for line in r.stdout.splitlines():
+        try:
+            o = json.loads(line)
+        except ValueError:
+            continue
+        if o.get("reason") != "compiler-message":
+            continue
+        msg = o["message"]
+        code = (msg.get("code") or {}).get("code") or ""
+        if not code.startswith("clippy::"):
+            continue
+        for sp in msg.get("spans", []):
+            if sp.get("is_primary"):
+                sites.append((code, sp["file_name"], sp["line_start"], sp["line_end"]))
+    if r.returncode != 0 and not sites:
+        ctx.note("clippy cross-check skipped: cargo clippy exited %d (%s)" % (r.returncode, r.stderr.strip().splitlines()[-1:] or ""))
+        return
+    missing = []
+    for (code, fn_, l1, l2) in sites:
+        if not any(a <= l1 and l2 <= b_ for (a, b_, _d) in spans.get(fn_, [])):
+            missing.append("%s at %s:%d" % (code, fn_, l1))
+    ctx.inst("C14/xcheck", "every site of clippy's panic / arithmetic / indexing restriction lints lies in a construct of the inventory", not missing,
+             "%d clippy site(s) (%s) against %d inventory constructs over all %d bodies; not covered: %s" % (
+                 len(sites), ", ".join(CLIPPY_LINTS), n_inv, len(fx.doc["fns"]), missing))
+
+
 def run(ctx):
     fx = ctx.fx
     cg = ctx.cg
+    if ctx.tier == "thorough" and ctx.info.get("profile") == "dev":
+        clippy_crosscheck(ctx)
     ents, missing = entries(fx)
     for m in missing:
         ctx.bad("C14/scope", "entry " + m, "public entry point pattern matches no function - anchor lost (failing closed)")
@@ -695,6 +928,11 @@ def run(ctx):
             except Exception as e:  # a recogniser bug must never discharge
                 res = None
                 ctx.note("discharge error at %s: %r" % (key, e))
+            if res is None:
+                try:
+                    res = discharge_in_region(fx, cg, k, bb, t, kind, descr)
+                except Exception as e:
+                    ctx.note("region discharge error at %s: %r" % (key, e))
             rpath = clean_path(fx.root_of(f)["path"])      # a closure belongs to the function it is written in
             if res is None and ((fpath, descr) in REVIEWED or (rpath, descr) in REVIEWED):
                 res = ("G5-reviewed", REVIEWED.get((fpath, descr)) or REVIEWED[(rpath, descr)])
